@@ -327,6 +327,32 @@ def corpus(ck, tmp):
         fails.append({"input": {"description": base}, "observed": f"create raised {r[1]}", "expected": "created"})
         return fails
     check_one(ck, "corpus", r[1], "F4a witnesses (content 1805 / 05ff / f6, key id 1800, ciphertext f6..)", fails)
+    # boundary members: zero-length payloads and texts, a dependency next to payloads, names that are odd strings
+    EMPTY_FILE = os.path.join(tmp, "empty_payload.bin")
+    open(EMPTY_FILE, "wb").close()
+    child = {"SUIT_Envelope_Tagged": {
+        "suit-authentication-wrapper": {"SuitDigest": {"suit-digest-algorithm-id": "cose-alg-sha-256"}},
+        "suit-manifest": {"suit-manifest-version": 1, "suit-manifest-sequence-number": 0, "suit-common": {"suit-components": [["C"]]}},
+        "suit-integrated-payloads": {"#empty-in-child": EMPTY_FILE}}}
+    designed = [
+        {"SUIT_Envelope_Tagged": {
+            "suit-authentication-wrapper": {"SuitDigest": {"suit-digest-algorithm-id": "cose-alg-sha-256"}},
+            "suit-manifest": {"suit-manifest-version": 1, "suit-manifest-sequence-number": 0, "suit-reference-uri": "",
+                              "suit-common": {"suit-components": [["M", ""]], "suit-shared-sequence": []}, "suit-validate": [],
+                              "suit-text": {"suit-digest-algorithm-id": "cose-alg-sha-256"}},
+            "suit-text": {"": {"suit-text-manifest-description": ""}},
+            "suit-integrated-payloads": {"#empty.bin": EMPTY_FILE, "#empty-inline": "", "#one": "00", "": "01"},
+            "suit-integrated-dependencies": {"#child.suit": child}}},
+    ]
+    second = json.loads(json.dumps(designed[0]))
+    del second["SUIT_Envelope_Tagged"]["suit-integrated-payloads"]["#empty-inline"]
+    designed.append(second)
+    for dsc in designed:
+        rr = interp.run_impl(interp.impl_create, json.loads(json.dumps(dsc)))
+        if rr[0] != "ok":
+            ck.count("corpus", json.dumps(dsc, sort_keys=True), nontrivial=False, sample={"designed": "boundary members", "create": rr[1]})
+            continue
+        check_one(ck, "corpus", rr[1], "boundary members (zero-length payload / text / uri / component part, empty names, dependency next to payloads)", fails)
     return fails
 
 
